@@ -760,12 +760,17 @@ def run(ctx):
     shapes = [(1, 3), (2, 6), (1, 9), (3, 12), (6, 3), (1, 30), (2, 60), (4, 15)]
     if not quick:
         shapes += [(ctx.rng.randint(1, 6), 3 * ctx.rng.randint(1, 20)) for _ in range(16)]
+    # some layouts occur twice: the second file REPLACES the first at the same path (matdyn.x re-run in place), and must
+    # be read as what it now prints
+    shapes += [(1, 3), (2, 6), (3, 12)]
     gen_body, gen_meta = [], []
     any_body, any_meta = [], []
     for gi, (nq, np_) in enumerate(shapes):
         d = rand_data(ctx, nq, np_)
         lines = py_print(d)
-        path = rd / ("gen_%02d.eig" % gi)
+        path = rd / ("matdyn_nq%d_np%d.eig" % (nq, np_))
+        if path.exists():
+            ctx.count("evec_load of a file rewritten at the same path")
         path.write_text("\n".join(lines) + "\n")
         res, err = observe_load(EL.evec_load, path, nq, np_)
         if res is not None and not structurally_valid(res):
